@@ -567,7 +567,7 @@ def run(ctx) -> None:
             c14.check_writer(sub_ctx, ctx.repo.module(rel_), ctx.repo.module(rel_).func(q_), lab_)
     n13 = 0
     for o in sub_ctx.obligations:
-        if o["rule"] in ("C14.A5-destination-never-removed", "C14.A1-temp-then-rename"):
+        if o["rule"] in ("C14.A5-destination-never-removed", "C14.A1-temp-then-rename", "C14.A9-temporary-name-is-unique-per-call"):
             o2 = dict(o)
             o2["rule"] = "C07.R13-stored-description-is-never-absent"
             o2["what"] = "[%s] %s" % (o["rule"], o["what"]) + ("" if o["ok"] else
